@@ -37,7 +37,7 @@ def obligations():
     for ch in ("one", "two"):
         o.append(Obl(f"C15.rules.bridge.{ch}", "py", H, "bridge_test", [D + "_residue_test_bridge", D + "_test_bond"], f"7 residues, chains '{ch}', every ordered residue pair, symbolic H-bond table (14 integers)",
                      "the bridge predicate as one term equals Kabsch & Sander's definition (parallel before antiparallel, both triplets inside one chain)", 300, params={"n": 7, "chains": ch}))
-    for ch, sk in (("one", "none"), ("tail", "none"), ("one", "s2"), ("two", "mid")):
+    for ch, sk in (("one", "none"), ("tail", "none"), ("one", "s2"), ("two", "mid"), ("one", "mid"), ("one", "last")):
         o.append(Obl(f"C15.rules.beta.n8.{ch}.{sk}", "py", H, "beta_sheets", [D + "calculate_beta_sheets", D + "Bridge", D + "_residue_test_bridge"], f"8 residues, chains '{ch}', skip mask '{sk}', every pair free (up to 3^6 type matrices)",
                      "B / E codes equal the reference ladder algorithm on every path", 900, params={"n": 8, "chains": ch, "skips": sk}))
     for tag, allowed in (("a", "1-5;1-6;1-7;2-6;2-7;3-7;4-7"), ("b", "1-4;1-5;1-6;2-5;2-7;3-6;3-7")):
